@@ -14,6 +14,10 @@ from tsv.base import Prop, fail, short
 from tsv.gen import docgen
 from tsv.model import docmodel as D
 from tsv.model import tree2ast
+from collections import Counter
+
+from tsv.model import refsearch as R
+from tsv.props.c04 import check_node, all_nodes
 from tsv.props.c15 import Exec, targets, string_settable
 
 NEW_NAMES = ['rn', 'renamed', 'Zed', 'q*', 'emphx']
@@ -148,6 +152,26 @@ class C14(Prop):
             if any(x.expr is n.real for x in ex.soup.find_all(old_name)):
                 return [fail('search-after-setter', 'find_all(%r) still returns the renamed node' % old_name)]
             ctx.count('searches')
+        # (2b) every navigation view / search sees the edited tree (an
+        # argument that was dropped must be gone from contents, descendants,
+        # text and find_all; a kept one must still be there)
+        for N in all_nodes(ex.soup):
+            f = check_node(N, ctx, False)
+            if f:
+                f['check'] = 'views-after-setter:' + f['check']
+                f['detail'] = 'after %r: %s' % (op, f['detail'])
+                return [f]
+        want_text = D.texts(ex.m)
+        got_text = [str(t) for t in ex.soup.text]
+        if got_text != want_text:
+            return [fail('views-after-setter:text', 'after %r soup.text is %s, expected %s'
+                         % (op, short(repr(got_text), 100), short(repr(want_text), 100)))]
+        for nm in D.names(ex.m)[:6]:
+            if '{' in nm or '[' in nm:
+                continue
+            if Counter(id(e) for e in R.search(ex.soup.expr, nm)) != \
+                    Counter(id(g.expr) for g in ex.soup.find_all(nm)):
+                return [fail('views-after-setter:search', 'after %r find_all(%r) disagrees with the tree' % (op, nm))]
         # (3) re-parse shows the same change
         reparse = True
         if has_semantics(old_name or '') or (op[0] == 'rename' and has_semantics(op[2])):
